@@ -406,7 +406,10 @@ def run_plan(inst, pre, plan, recorder=None, digest=None):
                             'probe': [p[0], list(p[1]), p[2]],
                             'got': a, 'fresh': b}
                     break
+        knobs = {k_: v_ for k_, v_ in ds.counters.items()
+                 if k_.startswith('knob:')}
         out = {'violation': viol, 'log': list(s.log), 'steps': list(s.steps),
+               'knobs': knobs,
                'calls': calls, 'lock_handovers': s.lock_handovers,
                'net_waits': s.net_waits,
                'ops_applied': applied[0], 'simtime': ds.fs.simtime}
@@ -657,6 +660,7 @@ def run_one(base, i, prop=None, mode='random'):
                 nsw += 1
         cnt.hit('context_switches', nsw)
         cnt.hit('switches_%d' % min(nsw, 5))
+        cnt.merge(out['knobs'])
         cnt.hit('fault:lock_handover', out['lock_handovers'])
         cnt.hit('fault:switch_while_waiting_for_peer', out['net_waits'])
         if inst.get('cold'):
